@@ -219,49 +219,10 @@ def run_task(P, task, prop, tier, out):
         d_ = npmodel.rowof(batch, j)
         return Fl(uf_nan(e, d_), uf_pinf(e, d_), uf_ninf(e, d_), uf_r(e, d_))
 
-    skipped = 0
-    for pi, r in enumerate(res):
-        p = f"{wv}:p{pi}"
-        if r.exc is not None:
-            if r.exc.cls == "HGV_PathOutOfReach":
-                skipped += 1
-                continue
-            if r.exc.cls == "AssertionError":
-                continue  # malformed inputs (shape mismatch) are outside the contract
-            vc = smt.build_vc("c03", r.st.fork(), z3.BoolVal(False))
-            record(out, prop, fi.qualname, "ensures:no-raise", p + f":{r.exc.cls}@{r.exc.origin}", wv, vc, tier)
-            continue
-        s0 = r.st
-        # preconditions of the children's _numpy hold at every call site
-        viol = [e for e in s0.events if e and (e[0] == "np-requires-violated" or (e[0] == "in-loop" and len(e) > 1 and e[1] == "np-requires-violated"))]
-        vc = smt.build_vc("c03", s0.fork(), z3.BoolVal(not viol))
-        record(out, prop, fi.qualname, "requires:children-know-batch-length", p, wv, vc, tier)
-        # inputs unchanged
-        same = True
-        if wv == "array":
-            same = s0.heap.get(warg.oid) is pre.heap.get(warg.oid)
-        vc = smt.build_vc("c03", s0.fork(), z3.BoolVal(bool(same)))
-        record(out, prop, fi.qualname, "ensures:inputs-unchanged", p, wv, vc, tier)
-        # entries
-        s = s0.fork()
-        Win = z3.Const("W_spec_in", npmodel.WArr)
-        j = z3.Int("wj0")
-        s.forall(j, z3.And(j >= 0, j < n), z3.And(npmodel.wat(Win, j).same(w_at(j))), name="spec-weights", base_only=True)
-        ent0, ent1 = a["entries"].fl, view_of(s, selfv, K)["entries"].fl
-        calls = s.np_calls
-        # asum is extensional: equal arrays have equal sums (witness of a differing row otherwise)
-        goal_terms = []
-        for t in sums_in(ent1.r):
-            wdiff = s.fresh("wit.sumdiff", z3.IntSort())
-            s.add_index(wdiff)
-            s.add(z3.Or(npmodel.asum(t) == npmodel.asum(Win), z3.And(wdiff >= 0, wdiff < n, z3.Not(npmodel.wat(t, wdiff).same(npmodel.wat(Win, wdiff))))))
-        if wv == "array":
-            vc = smt.build_vc("c03", s, z3.And(ent1.isfin(), ent1.r == ent0.r + npmodel.asum(Win)))
-        else:
-            # scalar weight: entries += weight * n or float(weights.sum()) of the constant array
-            vc = smt.build_vc("c03", s, z3.And(ent1.isfin(), z3.Or(ent1.r == ent0.r + npmodel.asum(Win), ent1.r == ent0.r + w_at(0).r * z3.ToReal(n))))
-        record(out, prop, fi.qualname, "ensures:entries", p, wv, vc, tier)
-        # per child slot: exactly one vectorised call, with the specified weights
+    fast_done = []
+
+    def slots(s0, p, bincount=None):
+        """per child slot: exactly one vectorised call, with the specified weights"""
         for f, kind in specs.CHILDREN.get(K, {}).items():
             s = s0.fork()
             row = s.fresh("sk.row", z3.IntSort())
@@ -310,6 +271,29 @@ def run_task(P, task, prop, tier, out):
                     s.add_index(kk)
                     hit = z3.And(desc.guard(kk), z3.substitute(cond, (k, kk)), z3.substitute(ref_t, (k, kk)) == target)
                     hits.append((hit, z3.substitute(W, (k, kk))))
+            if bincount is not None and kind != "one":
+                # fast path: np.bincount(index, weights=sel_w, minlength) then values[k].fill(None, h[k]).  Contract of
+                # the operands: a row counts for bin k (it survives the selection and its index is k) with weight w
+                # iff fill routes it to values[k] with that weight; every surviving index is inside [0, minlength)
+                idx_v, w_v, ml = bincount
+                io, wo = s.heap[idx_v.oid], s.heap[w_v.oid]
+                ok_shape = io.mask is not None and wo.mask is not None and io.mask_id == wo.mask_id and isinstance(ml, core.VInt)
+                if not ok_shape:
+                    vc = smt.build_vc("c03", s, z3.BoolVal(False))
+                    record(out, prop, fi.qualname, f"ensures:fast-path-operands:{f}", p, wv, vc, tier)
+                    continue
+                counted = z3.And(io.mask(row), io.elem(row).t == key)
+                got = Fl.ite(counted, X.B.num(wo.elem(row)), Fl.const(0.0))
+                want = Fl.ite(sel, wspec, Fl.const(0.0))
+                vc = smt.build_vc("c03", s.fork(), gate_eq(got, want))
+                record(out, prop, fi.qualname, f"ensures:fast-path-row-counted-in-its-bin:{f}", p, wv, vc, tier)
+                s2 = s0.fork()
+                s2.add_index(row)
+                s2.add(row >= 0, row < n, q.wf())
+                vc = smt.build_vc("c03", s2, z3.Implies(io.mask(row), z3.And(io.elem(row).t >= 0, io.elem(row).t < ml.t, ml.t == c.length)))
+                record(out, prop, fi.qualname, f"ensures:fast-path-index-in-range:{f}", p, wv, vc, tier)
+                fast_done.append(p)
+                continue
             if not hits:
                 vc = smt.build_vc("c03", s, z3.BoolVal(False))
                 record(out, prop, fi.qualname, f"ensures:child-called:{f}", p, wv, vc, tier)
@@ -321,8 +305,55 @@ def run_task(P, task, prop, tier, out):
             goal = z3.And([z3.Implies(h, gate_eq(npmodel.wat(W, row), want)) for h, W in hits])
             vc = smt.build_vc("c03", s, goal)
             record(out, prop, fi.qualname, f"ensures:row-weights:{f}", p, wv, vc, tier)
+
+    skipped = 0
+    for pi, r in enumerate(res):
+        p = f"{wv}:p{pi}"
+        if r.exc is not None:
+            if r.exc.cls == "HGV_PathOutOfReach":
+                skipped += 1
+                if getattr(r.st, "np_bincount", None):
+                    # the routing of the fast path is under contract, its reduction (bincount + fill of the sums) is not
+                    slots(r.st, p, r.st.np_bincount[-1])
+                continue
+            if r.exc.cls == "AssertionError":
+                continue  # malformed inputs (shape mismatch) are outside the contract
+            vc = smt.build_vc("c03", r.st.fork(), z3.BoolVal(False))
+            record(out, prop, fi.qualname, "ensures:no-raise", p + f":{r.exc.cls}@{r.exc.origin}", wv, vc, tier)
+            continue
+        s0 = r.st
+        # preconditions of the children's _numpy hold at every call site
+        viol = [e for e in s0.events if e and (e[0] == "np-requires-violated" or (e[0] == "in-loop" and len(e) > 1 and e[1] == "np-requires-violated"))]
+        vc = smt.build_vc("c03", s0.fork(), z3.BoolVal(not viol))
+        record(out, prop, fi.qualname, "requires:children-know-batch-length", p, wv, vc, tier)
+        # inputs unchanged
+        same = True
+        if wv == "array":
+            same = s0.heap.get(warg.oid) is pre.heap.get(warg.oid)
+        vc = smt.build_vc("c03", s0.fork(), z3.BoolVal(bool(same)))
+        record(out, prop, fi.qualname, "ensures:inputs-unchanged", p, wv, vc, tier)
+        # entries
+        s = s0.fork()
+        Win = z3.Const("W_spec_in", npmodel.WArr)
+        j = z3.Int("wj0")
+        s.forall(j, z3.And(j >= 0, j < n), z3.And(npmodel.wat(Win, j).same(w_at(j))), name="spec-weights", base_only=True)
+        ent0, ent1 = a["entries"].fl, view_of(s, selfv, K)["entries"].fl
+        calls = s.np_calls
+        # asum is extensional: equal arrays have equal sums (witness of a differing row otherwise)
+        goal_terms = []
+        for t in sums_in(ent1.r):
+            wdiff = s.fresh("wit.sumdiff", z3.IntSort())
+            s.add_index(wdiff)
+            s.add(z3.Or(npmodel.asum(t) == npmodel.asum(Win), z3.And(wdiff >= 0, wdiff < n, z3.Not(npmodel.wat(t, wdiff).same(npmodel.wat(Win, wdiff))))))
+        if wv == "array":
+            vc = smt.build_vc("c03", s, z3.And(ent1.isfin(), ent1.r == ent0.r + npmodel.asum(Win)))
+        else:
+            # scalar weight: entries += weight * n or float(weights.sum()) of the constant array
+            vc = smt.build_vc("c03", s, z3.And(ent1.isfin(), z3.Or(ent1.r == ent0.r + npmodel.asum(Win), ent1.r == ent0.r + w_at(0).r * z3.ToReal(n))))
+        record(out, prop, fi.qualname, "ensures:entries", p, wv, vc, tier)
+        slots(s0, p)
     if skipped:
-        out.setdefault("notes", []).append(f"{fi.qualname}: {skipped} path(s) through np.histogram / np.unique are outside the proof (bounded stand-in)")
+        out.setdefault("notes", []).append(f"{fi.qualname}: {skipped} path(s) through np.histogram / np.bincount / np.unique are outside the proof (bounded stand-in)" + ("; their routing (index array and weights handed to np.bincount, calls of the flow children) is proved" if fast_done else ""))
 
 
 def gate_eq(got, want):
